@@ -117,7 +117,9 @@ theorem parseCapability_err (o : UriOracle) (s : String) (e : Err) (h : parseCap
   unfold parseCapability at h
   split at h
   · cases h; simp
-  · cases h
+  · split at h
+    · cases h; simp
+    · cases h
 
 theorem capsLoop_good (c : RCfg) (o : UriOracle) (fuel : Nat) (endRaw : String) (acc : List Capability) (evs : List Ev) :
     Good evs fuel (capsLoop c o fuel endRaw acc evs) := by
